@@ -12,6 +12,16 @@ CHECKS = {
          "Codec: for all five multiplexer kinds every (channel, payload) of a boundary grid (empty/1/2-byte/127/128-byte/0x80-leading/NUL-containing strings; 0, 1, 127, 128, 2^14+-1, 2^16-1, 2^32-1, 2^63, 2^64-1; nil/empty/1-2 byte/frame-shaped payloads) must round-trip, all frames must be pairwise distinct and appending bytes must never change the parsed channel; every byte string of length <=4 over {00,01,02,7f,80,ff} plus 1-10 byte varint prefixes is fed to each demux (must not panic). Dispatch: the real muxes with every explored subset of three channels open (incl. the zero-value channel), a remote mux telling or asking on all three and a raw peer injecting invalid frames as tells and asks, all schedules within the bound: each swarm sees only what was sent on its channel, closed channels get nothing, invalid frames are answered by nobody.",
          "Channel ids/payloads beyond the grids; dispatch runs with preemption bound 0 (quick) / 1 (thorough).",
          "5/C15", "gosched"),
+ "C16": ("model_checking",
+         "exhaustive grid enumeration of generated and harvested addresses through the real marshal/parse codecs",
+         "Every address of the grid (11 IPs incl. IPv4-mapped and zoned IPv6 x 4 ports, peer ids, 64+ seeded SSH fingerprints covering the whole base64 alphabet, memswarm ids, identity@transport for quic/p2pke over udp/mem/ssh, scheme://inner with six scheme names and nested multiswarms) plus LocalAddrs of live udp/quic/p2pke/ssh swarms on IPv4 and IPv6 loopback is marshalled and re-parsed (deep equality); every string of length <=4 over a 12-symbol alphabet and structured mutations of valid addresses are fed to every parser, which must fail cleanly or be stable.",
+         "Scheme names containing '://' (application-chosen map keys) are outside the domain; values beyond the grid.",
+         "5/C16", "seqmc"),
+ "C17": ("model_checking",
+         "exhaustive grid enumeration of algorithm identifiers x key bodies, peer ids and candidate texts through the real codecs",
+         "Every ASN.1-encodable OID of length 2-4 over arcs {0,1,2,39,40,127,128,2^31-1} plus the registered ones, crossed with 9 key bodies: Parse(Marshal(k))==k, EqualPublicKeys <=> equal encodings over all pairs, fingerprints equal across p2pkeswarm/quicswarm and independent of the wire spelling (explicit NULL parameters); 30 peer ids: text round trip, order preservation over all pairs, and every single-symbol corruption with symbols outside the alphabet, wrong lengths and all strings of length <=2 must be rejected without touching the receiver.",
+         "OIDs that encoding/asn1 itself cannot re-read (2.x arcs near 2^31) are outside the domain; known finding: the two DefaultFingerprinter functions differ.",
+         "5/C17", "seqmc"),
  "C18": ("model_checking",
          "explicit-state BFS over operation sequences on the real Cache vs a reference map",
          "Every put/update/delete/expire/tick sequence over small key/time universes (incl. the constructor's boundary max==8*len*min) is executed on the real kademlia.Cache and compared with a reference map after every operation; states deduplicated by reference content + private bucket dump; exhaustive (closure) for the boundary configurations, depth-bounded for the TTL ones.",
